@@ -183,7 +183,8 @@ def run(ctx):
     ctx.rule = ("timed sequences of client_subscribed / client_unsubscribed from 5 endpoints (IPv4 and IPv6), refused subscriptions (unknown eventgroup, 0 or 2 endpoints), "
                 "value updates for 4 events, explicit notify_once for any subset (incl. an event without value), cyclic interval {none, 0.5, 0.75, 1 s}, address resolution "
                 "delay {0, 1 tick, 1 ms}, times on the cyclic instants +-1 tick and anywhere; one long run that wraps a destination's session id through _notify_single; "
-                "real SimpleService/SimpleEventgroup on the virtual-time loop vs the model (complete traces), implementation trace judged by check_C17")
+                "real SimpleService/SimpleEventgroup on the virtual-time loop vs the model (complete traces), implementation trace judged by check_C17; "
+                "plus, judged directly: one service with TWO eventgroups and common subscribers (recipients per group, header, per-destination ids over both groups)")
     ctx.assumptions = ["explicit rounds are judged only when nothing else happens at the same instant (the endpoint snapshot is taken one hop later); the loop is never late"]
     n = 400 if quick else 15000
     scs = [undescribe(c["scenario"]) for c in load_corpus("C17") if "scenario" in c]
@@ -193,6 +194,96 @@ def run(ctx):
     if True:
         judge(ctx, [wrap_scenario(r)], {})
         ctx.dist["session-id-wrap-run"] += 1
+    two_groups(ctx, r, 60 if quick else 1500)
+
+
+def two_groups(ctx, r, n):
+    """One SimpleService with TWO eventgroups and subscribers common to both (the loop model has one eventgroup): random
+    subscribe / unsubscribe / explicit rounds on either group; every notification must carry the service's ids, reach exactly
+    the endpoints subscribed to ITS group at that moment, and the session ids of one destination count 1, 2, 3, ... over
+    BOTH groups.  Judged directly (no model): each step is awaited before the next."""
+    import asyncio
+    import ipaddress
+    import someip.header as H
+    import someip.sd as S
+    import someip.service as SV
+    for k in range(n):
+        loop = asyncio.new_event_loop()
+        asyncio.set_event_loop(loop)
+        try:
+            async def gai(host, port, **kw):
+                return [(None, None, None, None, (host, port))]
+            loop.getaddrinfo = gai
+            sent = []
+
+            class T:
+                def sendto(self, data, addr=None):
+                    sent.append((bytes(data), addr))
+
+                def get_extra_info(self, key):
+                    return ("192.0.2.1", 30501)
+
+            async def go():
+                cls = type("VerifService2", (SV.SimpleService,), dict(service_id=0x4242, version_major=1, version_minor=0))
+                svc = cls(1)
+                svc.log.disabled = True
+                svc.transport = T()
+                egs = {}
+                for egid in (5, 6):
+                    eg = SV.SimpleEventgroup(svc, egid)
+                    eg.log.disabled = True
+                    eg.values[egid * 16 + 1] = bytes([egid])
+                    eg.values[egid * 16 + 2] = b""
+                    svc.register_eventgroup(eg)
+                    egs[egid] = eg
+                eps = [H.IPv4EndpointOption(address=ipaddress.IPv4Address("10.0.0.%d" % (i + 1)), l4proto=H.L4Protocols.UDP, port=4000) for i in range(2)]
+                eps.append(H.IPv6EndpointOption(address=ipaddress.IPv6Address("2001:db8::7"), l4proto=H.L4Protocols.UDP, port=4001))
+                subscribed = {5: set(), 6: set()}
+                steps, problems = [], []
+                for _ in range(r.randint(4, 14)):
+                    egid = r.choice([5, 6])
+                    ep = r.choice(eps)
+                    c = r.random()
+                    before = len(sent)
+                    sub = S.EventgroupSubscription(service_id=0x4242, instance_id=1, major_version=1, id=egid, counter=0, ttl=3, endpoints=frozenset([ep]))
+                    if c < 0.45 and ep not in subscribed[egid]:
+                        svc.client_subscribed(sub, ("10.0.0.1", 30490))
+                        subscribed[egid].add(ep)
+                        want = {(str(ep.address), ep.port)}
+                        steps.append(("subscribe", egid, str(ep.address)))
+                    elif c < 0.6 and ep in subscribed[egid]:
+                        svc.client_unsubscribed(sub, ("10.0.0.1", 30490))
+                        subscribed[egid].discard(ep)
+                        want = set()
+                        steps.append(("unsubscribe", egid, str(ep.address)))
+                    else:
+                        egs[egid].notify_once([egid * 16 + 1])
+                        want = {(str(e.address), e.port) for e in subscribed[egid]}
+                        steps.append(("notify", egid))
+                    for _ in range(6):
+                        await asyncio.sleep(0)
+                    got = [a for _, a in sent[before:]]
+                    if sorted(set(got)) != sorted(want) or len(got) != len(want):
+                        problems.append("step %r: notified %r, subscribed to that group %r" % (steps[-1], sorted(got), sorted(want)))
+                return steps, problems
+            steps, problems = loop.run_until_complete(go())
+            per = {}
+            for data, addr in sent:
+                rest = data
+                while rest:
+                    m, rest = H.SOMEIPHeader.parse(rest)
+                    if (m.service_id, m.interface_version, m.message_type, m.return_code, m.client_id) != (0x4242, 1, H.SOMEIPMessageType.NOTIFICATION, H.SOMEIPReturnCode.E_OK, 0):
+                        problems.append("notification header: %r" % (m,))
+                    per.setdefault(addr, []).append(m.session_id)
+            for addr, ids in per.items():
+                if ids != list(range(1, len(ids) + 1)):
+                    problems.append("session ids to %r are %r, expected 1..%d" % (addr, ids[:12], len(ids)))
+            if problems:
+                ctx.violation("service with two eventgroups and common subscribers: " + problems[0], dict(steps=[list(s) for s in steps], problems=problems[:6]))
+            ctx.case(("two-groups", tuple(steps)), nontrivial=bool(sent), kind="two-eventgroups")
+        finally:
+            asyncio.set_event_loop(None)
+            loop.close()
 
 
 def replay(ctx, rp):
